@@ -560,8 +560,14 @@ func (fr *Frame) encodeAppend(v *ssa.Call, cc *ssa.CallCommon, at Term, st *Stat
 				n = IntLit(cnt)
 				newInner = oldInner
 				src := Select(h, fr.val(al), innerSort)
+				set := c.elemsOf(oldInner, slOff(s), slLen(s), es)
 				for i := int64(0); i < cnt; i++ {
-					newInner = Store(newInner, Add(base, IntLit(i)), Select(src, IntLit(i), es))
+					ev := Select(src, IntLit(i), es)
+					newInner = Store(newInner, Add(base, IntLit(i)), ev)
+					// element-set view of the extended window (follows from the definition of elemsOf)
+					ns := c.elemsOf(newInner, slOff(s), Add(slLen(s), IntLit(i+1)), es)
+					c.assert(Eq(ns, Store(set, ev, True)))
+					set = ns
 				}
 			}
 		}
